@@ -4,6 +4,7 @@ import ipaddress
 import vlib
 from run_check import Case
 from vlib import line, tok, untok, Broken
+from props import hostsgen
 
 TRUSTED_BASE = [
     "Coq 8.16.1 kernel (coqc; coqchk in the thorough tier); vm_compute for byte/hextet mask sweeps lifted by lemma",
@@ -13,6 +14,7 @@ TRUSTED_BASE = [
     "coq/Model/IpStd.v: documented ranges of std Ipv4Addr/Ipv6Addr predicates (validated by the exhaustive IPv4 sweep and the IPv6 sweeps)",
     "hand-written coq/Model/ConnectPolicy.v (decision part of TcpForwarder::connect)",
     "extraction + driver.ml, cross-checked against vm_compute; harness doors verif::net / verif::tcp",
+    "host names with several addresses: the connect door is run by a child process of the harness in a private user + mount namespace whose /etc/hosts is written for the case (unshare -rm; skipped where that is not possible); the oracle and the model are given the answers the resolver of that process really gave",
 ]
 ASSUMPTIONS = [
     "tokio::net::lookup_host (the resolver) and TcpStream::connect are environment; host-name cases use names the libc resolves without DNS",
@@ -21,7 +23,7 @@ ASSUMPTIONS = [
 RULE = ("is_global: the real function on ALL 2^32 IPv4 addresses against the spec range table (exhaustive, in the harness); "
         "IPv6: every first hextet x representative tails, every second hextet under 2001:, every IPv4 range boundary embedded as "
         "::ffff:a.b.c.d, random addresses; connect: literal spellings (v4, v6, mapped, zero) and libc-numeric host names against a "
-        "dual-stack canary listener for both values of allow_private / ipv6_available; non-trivial = address in or adjacent to a "
+        "dual-stack canary listener for both values of allow_private / ipv6_available; host names resolving to one to three loopback addresses (IPv4, IPv6), to loopback and private addresses, to private addresses only, for both values of both settings; non-trivial = address in or adjacent to a "
         "special block; distinct = distinct address / destination list")
 
 
@@ -86,6 +88,28 @@ def gen_cases(rng, ctx):
                 meta.append(("name", n))
             l = line("c03_connect", toks)
             cases.append(Case(l, l, kind="connect", nontrivial=True, meta={"dests": meta, "allow": allow}))
+    # host names with several addresses (a hosts file of the case's choosing, see hostsgen): the model is asked about the answer the
+    # resolver really gave (the spec line is built from the implementation's output)
+    hosts = list(hostsgen.hosts_file())
+    for allow in (0, 1):
+        for v6ok in (0, 1):
+            order = [n for n, _ in hostsgen.NAMES]
+            rng.shuffle(order)
+            toks = [[allow, v6ok]]
+            for n in order:
+                toks += [[2], list(n.encode()), []]
+
+            def spec(impl, allow=allow, v6ok=v6ok, order=order):
+                t = impl.split()
+                if len(t) != 2 * len(order):
+                    return "c03_connect %d,%d" % (allow, v6ok)
+                mt = [[allow, v6ok]]
+                for i, n in enumerate(order):
+                    mt += [[2], list(n.encode()), untok(t[2 * i + 1])]
+                return line("c03_connect", mt)
+
+            cases.append(Case(line("c03_connect_hosts", [hosts] + toks), None, spec, kind="connect-resolved", nontrivial=True,
+                              meta={"names": order, "allow": allow, "v6ok": v6ok}))
     return cases
 
 
@@ -111,6 +135,46 @@ def judge(case, impl, model, spec, ctx):
     out = []
     if impl == "999":
         return [("violation", "panic in %s" % case.kind)]
+    if case.kind == "connect-resolved":
+        if impl == "996":
+            ctx.setdefault("skipped_env", []).append(case.kind)
+            return []
+        it = impl.split()
+        st = spec.split() if spec else []
+        allow, v6ok = case.meta["allow"], case.meta["v6ok"]
+        for i, name in enumerate(case.meta["names"]):
+            code, delta = untok(it[2 * i])
+            got = hostsgen.parse_answer(untok(it[2 * i + 1]))
+            if sorted(map(str, got)) != sorted(str(hostsgen.ipaddress.ip_address(a)) for a in hostsgen.ADDRS[name]):
+                ctx.setdefault("skipped_env", []).append(case.kind + " (resolver answered %s for %s)" % ([str(x) for x in got], name))
+                return []
+            what = "host name %s resolving to %s, private connections %s, IPv6 %savailable" % (
+                name, ", ".join(map(str, got)), "allowed" if allow else "refused", "" if v6ok else "un")
+            # direct oracle (every address of these names is a loopback or a private one)
+            if allow == 0:
+                codes = hostsgen.refusal_codes(got, bool(v6ok))
+                if delta != 0:
+                    out.append(("violation", "%s: a TCP connection reached the canary although the policy refuses every address" % what))
+                elif codes is None:
+                    if code in (0, 1, 2):
+                        out.append(("violation", "%s: outcome %d although there is no address to look at" % (what, code)))
+                elif code not in (1, 2):
+                    out.append(("violation", "%s: not reported as a policy refusal (outcome %d)" % (what, code)))
+                elif {1: 311, 2: 310}[code] not in codes:
+                    out.append(("violation", "%s: refused as %s although %s" % (
+                        what, "non-routable (310)" if code == 2 else "loopback (311)",
+                        "every address looked at is a loopback address (311)" if codes == {311} else "no address looked at is a loopback address (310)")))
+            elif code in (1, 2) and hostsgen.refusal_codes(got, bool(v6ok)) is not None:
+                out.append(("violation", "%s: refused by the policy (outcome %d)" % (what, code)))
+            if out:
+                return out[:1]
+            if st:
+                mdec = untok(st[2 * i])[0]
+                same = (mdec == code) if mdec in (1, 2, 5) else (code not in (1, 2))
+                if not same:
+                    out.append(("disagree", "%s: outcome %d, the policy model decides %d" % (what, code, mdec)))
+                    return out
+        return out
     if case.kind == "connect":
         it = impl.split()
         mt = model.split() if model else []
